@@ -27,6 +27,7 @@ CONSTANTS SAdd(_,_), SMul(_,_), SNeg(_), SDiv(_,_), SFn(_,_), SPow(_,_), SDPow(_
           SGt(_,_,_),    \* SGt(x, thr, observed): is x > thr (domains that cannot decide adopt `observed`)
           PIn(_),        \* exponent descriptor
           Canon(_,_),    \* Canon(n, t): the tensor stored for node n (symbolic domain: fresh symbols + definition)
+          ApproxEq(_,_,_,_,_),  \* ApproxEq(kind, a, b, eps, rel): "T" | "F" | "unspec"  (AbsDiffEq / RelativeEq of two tensors)
           Tainted(_),    \* Tainted(t): the specified tensor left the exact domain (poison value)
           Exact,         \* BOOLEAN: values are decided by this validator
           Rec            \* the recorded events (sequence of records)
@@ -60,6 +61,8 @@ CheckLive(e, S2, dig2) ==
   LET hs == (DOMAIN S2.hd) \ Hidden IN
   IF ObsHandles(e) # hs THEN "live-set"
   ELSE IF \E h \in hs : ObsOf(e, h).x # dig2[h] THEN "immutable"
+  \* between two API calls no consumer counter is left over (read through the public Debug output, when it has one)
+  ELSE IF \E h \in hs : Has(ObsOf(e, h), "cc") /\ ObsOf(e, h).cc # 0 THEN "counter-residue"
   ELSE IF \E h \in hs : ObsOf(e, h).t # S2.hd[h].trk THEN "tracked-flag"
   ELSE IF \E h \in hs : ObsOf(e, h).g # IsSome(S2.grad[S2.hd[h].n]) THEN "grad-presence"
   ELSE IF \E h \in hs : Has(ObsOf(e, h), "gt") /\ ObsOf(e, h).gt.d # S2.grad[S2.hd[h].n].x.d THEN "grad-dims"
@@ -255,6 +258,11 @@ Judge(e) ==
   ELSE IF e.op = "eq" THEN
      IF e.panic THEN Bad("unexpected-panic")
      ELSE IF e.ret # (HandleT(S, e.args[1]) = HandleT(S, e.args[2])) THEN Bad("equality") ELSE JS("", S, dig, <<"judged">>)
+  ELSE IF e.op \in {"abs_diff_eq", "relative_eq"} THEN
+     LET r == ApproxEq(e.op, HandleT(S, e.args[1]), HandleT(S, e.args[2]), SIn(e.eps), IF Has(e, "rel") THEN SIn(e.rel) ELSE SZero) IN
+     IF r = "unspec" THEN Unspec
+     ELSE IF e.panic THEN Bad("unexpected-panic")
+     ELSE IF e.ret # (r = "T") THEN Bad("approx-equality") ELSE JS("", S, dig, <<"judged">>)
   ELSE IF e.op = "cmp" THEN
      LET v == SGt(HandleT(S, e.args[1]).v[e.k + 1], SIn(e.thr), e.ret) IN
      IF e.ret # v THEN Bad("comparison") ELSE [J("", S, dig) EXCEPT !.cmp = v]
